@@ -74,7 +74,7 @@ def gen_stream(ctx):
     rng = random.Random(ctx.seed * 7368787 + 41)
     hist = {}
     g = cd.Gen(rng, hist)
-    per = 25 if ctx.tier == "quick" else 300
+    per = 25 if ctx.tier == "quick" else 120
     vals = []
     for k in cd.KINDS_V2:
         for _ in range(per):
@@ -107,9 +107,9 @@ def gen_stream(ctx):
         dec.append((k, pl))
         cuts = cd.truncations_and_corruptions(pl, rng, all_positions=(len(pl) <= 90 and ctx.tier == "thorough"))
         rng.shuffle(cuts)
-        for b in cuts[:12 if ctx.tier == "quick" else 200]:
+        for b in cuts[:12 if ctx.tier == "quick" else 80]:
             dec.append((k, b))
-        for _ in range(3 if ctx.tier == "quick" else 30):
+        for _ in range(3 if ctx.tier == "quick" else 20):
             dec.append((k, cd.mutate(pl, rng)))
     for k in cd.KINDS_V2:
         for b in cd.boundary_payloads(k, rng):
